@@ -112,6 +112,18 @@ func genBEBase(r *rand.Rand, mode string) *Scenario {
 var ttlChoices = []int64{1, 50, ms, 20 * ms, sec, 60 * sec, 3600 * sec, 24 * 3600 * sec, 365 * 24 * 3600 * sec}
 
 func genSeqOps(r *rand.Rand, nKeys, n int, mutate bool) []BEOp {
+	ops := genSeqOps0(r, nKeys, n, mutate)
+
+	for i := range ops {
+		if ops[i].Kind != "sleep" && chance(r, 0.04) {
+			ops[i].CtxDone = true
+		}
+	}
+
+	return ops
+}
+
+func genSeqOps0(r *rand.Rand, nKeys, n int, mutate bool) []BEOp {
 	var ops []BEOp
 
 	for i := 0; i < n; i++ {
@@ -272,6 +284,7 @@ func shrinkBE(sc *Scenario, yield func(c *Scenario) bool) {
 				func(o *BEOp) bool { ok := o.SkipRead; o.SkipRead = false; return ok },
 				func(o *BEOp) bool { ok := o.Mutate; o.Mutate = false; return ok },
 				func(o *BEOp) bool { ok := o.NilVal; o.NilVal = false; return ok },
+				func(o *BEOp) bool { ok := o.CtxDone; o.CtxDone = false; return ok },
 				func(o *BEOp) bool { ok := o.Key != 0; o.Key = 0; return ok },
 			}
 
